@@ -25,6 +25,7 @@ type crashPlan struct {
 	maxTicks   int
 	maxCrashes int
 	prefix     []string
+	bases      bool // also with stream start offsets 0 and 2^32+7
 }
 
 func crashConfigs(kind string) []aofCfg {
@@ -80,50 +81,50 @@ func crashPlans(check, tier string) []crashPlan {
 		alpha := []string{"w1", "w2", "df", "s1", "s0", "t2", "ts", "p", "n"}
 		if tier == "thorough" {
 			return []crashPlan{
-				{alpha, 3, crashConfigs(""), 1, 1, 1, []string{"s0"}},
-				{alpha, 2, crashConfigs("all"), 1, 1, 2, []string{"s0"}},
-				{alpha, 2, crashConfigs(""), 2, 2, 1, []string{"s0"}},
-				{[]string{"w1", "s1", "s0", "s2"}, 4, crashConfigs("db"), 1, 1, 1, []string{"s0"}},
-				{[]string{"w1", "sb", "p", "s0", "s1"}, 4, crashConfigs("db"), 1, 1, 1, []string{"s0"}},
+				{alpha, 3, crashConfigs(""), 1, 1, 1, []string{"s0"}, false},
+				{alpha, 2, crashConfigs("all"), 1, 1, 2, []string{"s0"}, false},
+				{alpha, 2, crashConfigs(""), 2, 2, 1, []string{"s0"}, false},
+				{[]string{"w1", "s1", "s0", "s2"}, 4, crashConfigs("db"), 1, 1, 1, []string{"s0"}, false},
+				{[]string{"w1", "sb", "p", "s0", "s1"}, 4, crashConfigs("db"), 1, 1, 1, []string{"s0"}, false},
 			}
 		}
 		return []crashPlan{
 			// targeted plans first: when the deadline cuts the run short it cuts the broad plans
 			// database switches around a crash: position stored in a db > 0, then the source returns to db 0
-			{[]string{"w1", "s1", "s0"}, 4, crashConfigs("db"), 0, 0, 1, []string{"s0"}},
+			{[]string{"w1", "s1", "s0"}, 4, crashConfigs("db"), 0, 0, 1, []string{"s0"}, false},
 			// a stretch inside a black-listed database (nothing of it reaches the target, the
 			// master's keep-alive PINGs still arrive) with a crash in or right after it
-			{[]string{"w1", "sb", "p"}, 4, crashConfigs("db"), 1, 1, 1, []string{"s0"}},
+			{[]string{"w1", "sb", "p"}, 4, crashConfigs("db"), 1, 1, 1, []string{"s0"}, false},
 			// argument shapes (empty string, binary bytes): offsets are byte counts of what was decoded
-			{[]string{"we", "w2", "w1"}, 2, crashConfigs(""), 0, 0, 1, []string{"s0"}},
-			{[]string{"w1", "df", "s1", "s0", "t2", "ts", "p"}, 2, crashConfigs(""), 1, 1, 1, []string{"s0"}},
-			{[]string{"w1", "s1", "t2", "p"}, 3, crashConfigs(""), 0, 0, 1, []string{"s0"}},
+			{[]string{"we", "t3", "w1"}, 2, crashConfigs(""), 0, 0, 1, []string{"s0"}, true},
+			{[]string{"w1", "df", "s1", "s0", "t2", "ts", "p"}, 2, crashConfigs(""), 1, 1, 1, []string{"s0"}, false},
+			{[]string{"w1", "s1", "t2", "p"}, 3, crashConfigs(""), 0, 0, 1, []string{"s0"}, false},
 		}
 	case "C07":
 		alpha := []string{"w1", "s1", "t1", "p", "n", "g"}
 		if tier == "thorough" {
 			return []crashPlan{
-				{append([]string{"we", "w2"}, alpha...), 3, crashConfigs(""), 2, 3, 1, []string{"s0"}},
-				{alpha, 2, crashConfigs("all"), 2, 3, 2, []string{"s0"}},
-				{alpha, 1, crashConfigs("all"), 3, 3, 2, nil},
+				{append([]string{"we", "w2"}, alpha...), 3, crashConfigs(""), 2, 3, 1, []string{"s0"}, false},
+				{alpha, 2, crashConfigs("all"), 2, 3, 2, []string{"s0"}, false},
+				{alpha, 1, crashConfigs("all"), 3, 3, 2, nil, false},
 			}
 		}
 		return []crashPlan{
-			{alpha, 2, crashConfigs(""), 1, 2, 1, []string{"s0"}},
-			{alpha, 1, crashConfigs(""), 2, 3, 1, nil},
-			{[]string{"we", "w2", "w1", "p"}, 2, crashConfigs(""), 0, 1, 1, []string{"s0"}},
+			{alpha, 2, crashConfigs(""), 1, 2, 1, []string{"s0"}, false},
+			{alpha, 1, crashConfigs(""), 2, 3, 1, nil, false},
+			{[]string{"we", "w2", "w1", "p"}, 2, crashConfigs(""), 0, 1, 1, []string{"s0"}, true},
 		}
 	case "C09":
 		alpha := []string{"t1", "t2", "t3", "ts", "w1", "s1"}
 		if tier == "thorough" {
 			return []crashPlan{
-				{alpha, 3, crashConfigs("txn-all"), 1, 1, 1, []string{"s0"}},
-				{alpha, 2, crashConfigs("txn-all"), 2, 2, 2, []string{"s0"}},
+				{alpha, 3, crashConfigs("txn-all"), 1, 1, 1, []string{"s0"}, false},
+				{alpha, 2, crashConfigs("txn-all"), 2, 2, 2, []string{"s0"}, false},
 			}
 		}
 		return []crashPlan{
-			{alpha, 2, crashConfigs("txn"), 1, 1, 1, []string{"s0"}},
-			{[]string{"t2", "t3", "s1"}, 3, crashConfigs("txn"), 0, 0, 1, []string{"s0"}},
+			{alpha, 2, crashConfigs("txn"), 1, 1, 1, []string{"s0"}, false},
+			{[]string{"t2", "t3", "s1"}, 3, crashConfigs("txn"), 0, 0, 1, []string{"s0"}, false},
 		}
 	}
 	return nil
@@ -178,6 +179,14 @@ func runCrashCheck(t *testing.T, rep *mc.Reporter, check string, oracle func(scn
 				}
 				scn := crashScenario{Syms: append(append([]string(nil), pl.prefix...), seq...), Cfg: cfg, Max: pl.maxTicks, MaxCrashes: pl.maxCrashes}
 				mc.RunScenario(rep, scn, pl.bound, budget, func(ch *mc.Chooser) mc.Result { return exec(scn, ch) })
+				if pl.bases {
+					// the same histories on streams that start at offset 0 and beyond 2^32
+					for _, b := range []string{"0", "big"} {
+						sb := scn
+						sb.Base = b
+						mc.RunScenario(rep, sb, pl.bound, budget, func(ch *mc.Chooser) mc.Result { return exec(sb, ch) })
+					}
+				}
 			}
 		})
 	}
